@@ -462,7 +462,7 @@ class SQLiteStorage(SQLiteMixin):
             (is_mine,)
         )
         content_blobs = await self.db.execute_fetchall(
-            "select blob.blob_hash, blob.blob_length, blob.added_on "
+            "select distinct blob.blob_hash, blob.blob_length, blob.added_on "
             "from blob join stream_blob using (blob_hash) cross join stream using (stream_hash)"
             "cross join file using (stream_hash)"
             "where blob.is_mine=? and blob.status='finished' order by blob.added_on asc, blob.blob_length asc",
@@ -482,7 +482,9 @@ class SQLiteStorage(SQLiteMixin):
                coalesce(sum(case when
                    is_mine=1
                then blob_length else 0 end), 0) as private_storage
-        from blob left join stream_blob using (blob_hash)
+        from blob left join (
+            select distinct blob_hash, 1 as stream_hash from stream_blob where blob_hash is not null
+        ) as stream_blob using (blob_hash)
         where blob_hash not in (select sd_hash from stream) and blob.status="finished"
         """)
         return {
